@@ -39,6 +39,7 @@
 #include <soundswallower/s3file.h>
 #include <soundswallower/search_module.h>
 #include <soundswallower/state_align_search.h>
+#include "histadd.h"
 #include "vtrace.h"
 
 static lattice_t *kept_dag; /* "call latkeep": the caller's own reference to a lattice */
@@ -986,7 +987,10 @@ cmd_synhist(char *line)
     /* back to the state right after the root entry was written */
     fsg_history_end_frame(h);
     fsg_history_reset(h);
-    fsg_history_entry_add(h, NULL, -1, 0, -1, silci, all);
+    {
+        fsg_pnode_ctxt_t rc0 = all;
+        VT_HIST_ADD(h, NULL, -1, 0, -1, silci, rc0);
+    }
     real = (int *)calloc(n + 2, sizeof(int));
     real[1] = 0;
     {
@@ -1036,7 +1040,7 @@ cmd_synhist(char *line)
                     fprintf(stderr, "synhist: the search's grammar has no arc %ld -> %ld word %d\n", from[k], to[k], wid[k]);
                     return -1;
                 }
-                fsg_history_entry_add(h, link, (int32)fr[k], (int32)sc[k], real[pr[k]], (int32)(k - i), all);
+                { fsg_pnode_ctxt_t rc1 = all; VT_HIST_ADD(h, link, (int32)fr[k], (int32)sc[k], real[pr[k]], (int32)(k - i), rc1); }
             }
             fsg_history_end_frame(h);
             /* where did they go?  (frame < 0: appended at once, in order; otherwise by state, then left context) */
@@ -1865,6 +1869,9 @@ main(int argc, char *argv[])
                         senset[v] = 1;
                     p = endp;
                 }
+        } else if (!strcmp(cmd, "histsize")) { /* how many word exits the search's history table holds */
+            fsg_search_t *fs = d ? (fsg_search_t *)d->search : NULL;
+            fprintf(vt_out, "{\"e\":\"HistSize\",\"n\":%d}\n", fs && fs->history ? fsg_history_n_entries(fs->history) : -1);
         } else if (!strcmp(cmd, "mark")) { /* free-form marker copied to the trace */
             if (sscanf(line, "%*s %s", arg) != 1)
                 return 3;
